@@ -77,12 +77,12 @@ func kmImpl(fn, key1, key2, v string) string {
 }
 
 func runC09(c *Ctx) {
-	maxPat, maxPath := 2, 4
+	maxPat, maxPath := 3, 4
 	if c.Thorough() {
 		maxPat, maxPath = 4, 5
 	}
 	c.Exhaustive = true
-	c.Rule = fmt.Sprintf("all patterns of the segment grammar (literal | placeholder | trailing /*) with <= %d segments over {a, b, empty, id, x} x all paths with <= %d segments over {a, b, 1, empty} (plus query strings for keyMatch5), for keyMatch2/3/4/5 and keyGet2/3, against the Lean model (rendered pattern text) and the Lean segment semantics (bounded-exhaustive); raw pattern strings over {/ a : { } * ? .} for the boundary of the modelled regex fragment; keyMatch/keyGet over all short strings; random IPv4 addresses/CIDRs incl. malformed; non-trivial = a pattern with a placeholder or wildcard on which some path matches and some does not; distinct = (function, pattern)", maxPat, maxPath)
+	c.Rule = fmt.Sprintf("all patterns of the segment grammar (literal | placeholder | trailing /*) with <= %d segments over {a, b, empty, id, x} x all paths with <= %d segments over {a, b, 1, empty} (plus query strings for keyMatch5), for keyMatch2/3/4/5 and keyGet2/3, against the Lean model (rendered pattern text) and the Lean segment semantics (bounded-exhaustive); raw pattern strings over {/ a : { } * ? .} for the boundary of the modelled regex fragment; keyMatch/keyGet over all short strings; random IPv4 and IPv6 addresses/CIDRs incl. boundary prefix lengths and malformed text; non-trivial = a pattern with a placeholder or wildcard on which some path matches and some does not; distinct = (function, pattern)", maxPat, maxPath)
 	segAlpha := []pseg{{false, "a"}, {false, "b"}, {false, ""}, {true, "id"}, {true, "x"}}
 	var patterns [][]pseg
 	var recP func(cur []pseg)
@@ -165,7 +165,7 @@ func runC09(c *Ctx) {
 	}
 	// raw pattern strings: where does the modelled fragment end?
 	rawAlpha := []string{"/", "a", ":", "{", "}", "*", "?", ".", "b"}
-	maxRaw := 4
+	maxRaw := 3
 	if c.Thorough() {
 		maxRaw = 5
 	}
@@ -220,6 +220,45 @@ func runC09(c *Ctx) {
 		}
 		if rng.Intn(20) == 0 {
 			a, b = b, a
+		}
+		if i%3 == 0 {
+			// IPv6: hex groups, "::" compression, prefix lengths incl. the boundaries 0, 32, 64, 128
+			grp := func() string { return fmt.Sprintf("%x", rng.Intn(65536)>>uint(rng.Intn(3)*4)) }
+			addr := func() string {
+				switch rng.Intn(4) {
+				case 0:
+					return "2001:db8::" + grp()
+				case 1:
+					return "2001:db8:" + grp() + "::" + grp() + ":" + grp()
+				case 2:
+					return "::" + grp()
+				default:
+					gs := make([]string, 8)
+					for k := range gs {
+						gs[k] = grp()
+					}
+					if rng.Intn(2) == 0 {
+						gs[0], gs[1] = "2001", "db8"
+					}
+					return strings.Join(gs, ":")
+				}
+			}
+			a = addr()
+			lens := []int{0, 1, 16, 31, 32, 33, 48, 64, 96, 127, 128, rng.Intn(129)}
+			switch rng.Intn(6) {
+			case 0:
+				b = a
+			case 1:
+				b = addr()
+			case 2:
+				b = []string{"2001:db8::/129", "2001:db8:::1/32", "1:2:3:4:5:6:7:8:9/64", "12345::/16", "::g/8", "2001:db8::/032"}[rng.Intn(6)]
+			default:
+				n := addr()
+				if rng.Intn(2) == 0 {
+					n = a
+				}
+				b = fmt.Sprintf("%s/%d", n, lens[rng.Intn(len(lens))])
+			}
 		}
 		obs := obsBool(func() bool { return util.IPMatch(a, b) })
 		c.W.Op(fmt.Sprintf("ip %s %s", proto.Enc(a), proto.Enc(b)), obs)
